@@ -1,1 +1,17 @@
+//! Generated universe of concrete programs: built-in type expressions and derive declarations,
+//! each with monomorphic entry points into the real library. Split into parts (separate crates)
+//! only so that cargo compiles them in parallel. See `vgen`.
+pub const THOROUGH: bool = p0::THOROUGH;
 
+pub fn entries() -> Vec<bridge::Entry> {
+    let mut v = Vec::new();
+    v.extend(p0::entries());
+    v.extend(p1::entries());
+    v.extend(p2::entries());
+    v.extend(p3::entries());
+    v.extend(p4::entries());
+    v.extend(p5::entries());
+    v.extend(p6::entries());
+    v.extend(p7::entries());
+    v
+}
